@@ -5,7 +5,7 @@
 # On success copies everything to /verif/seeded/<name>/ and writes meta.json skeleton.
 NAME=$1; SRC=$2; PATCH=${3:-$SRC/patch.diff}
 WT=/tmp/seedverify-wt-$NAME
-export CARGO_TARGET_DIR=/tmp/seedverify-target
+export CARGO_TARGET_DIR=${SEEDVERIFY_TARGET:-/tmp/seedverify-target}
 LOG=/tmp/seedverify-$NAME.log
 exec >"$LOG" 2>&1
 git -C /repo worktree remove --force $WT 2>/dev/null
